@@ -173,13 +173,24 @@ func Discharge(vcs []*VC, extra func(*VC) []*smt.Term, o DischargeOpts) []Verdic
 				v.RecVals = a.Values[len(vc.Nondets):]
 			}
 			if o.CrossCheck && a.Res == smt.Unsat {
-				other := smt.Z3New
-				if strings.HasPrefix(a.Solver, "z3") {
-					other = smt.CVC5
+				// second opinion: integer queries z3 <-> cvc5; floating-point queries go to z3 5.1.0 only
+				// when the first solver needed less than 10 s (z3 is 2-20x slower on FP), capped at 120 s;
+				// an unknown from the second solver is tolerated, a sat is an engine failure
+				fp := false
+				for _, t := range final {
+					if smt.HasFP(t) {
+						fp = true
+						break
+					}
 				}
-				_, to := pickBackend(o, final)
-				b := smt.Solve(other, final, nil, to)
-				v.Cross = b.Res.String()
+				if !fp || a.Seconds < 10 {
+					other := smt.Z3New
+					if strings.HasPrefix(a.Solver, "z3") {
+						other = smt.CVC5
+					}
+					b := smt.Solve(other, final, nil, 120*time.Second)
+					v.Cross = b.Res.String()
+				}
 			}
 			out[i] = v
 		}(i, vc)
